@@ -6,10 +6,10 @@ arbitrary join orders and jitter) is a multi-node liveness property and is NOT d
 the master-side contracts of spec/mesh.py (lookup replies, release)."""
 from pyvc.cdef import Contract, LoopSpec
 from pyvc.schema import Int, Bool, Const, Bytes, ByteArray, Obj, OneOf
-from pyvc.specrt import implies, ite, oracle_int, require, assume
+from pyvc.specrt import implies, ite, oracle_int, require, assume, class_attr, set_class_attr
 from spec.net_ref import valid_node, valid_address
 from spec.net_state import node_ok
-from spec.c07 import req_update, havoc_update, fixed_cfg, abs_begin
+from spec.c07 import req_update, havoc_update, fixed_cfg, abs_begin, begin_effects
 from spec.mesh import mesh_schema, MPOL, abs_write_m, abs_net_update_m, DEFAULT, d_inv, lookup_id, lookup_addr, same_table
 
 NM = "rf24_mesh:RF24MeshNoMaster"
@@ -177,8 +177,25 @@ def ens_mesh_write(self, old_self, to_node, message_type, old_message, result, e
         return result == False and self.g_writes == 0
     trunc = n > 24 and not old_self._frag_enabled
     want = ite(trunc, bytes(old_message)[:24], bytes(old_message))
-    return (self.g_writes == 1 and self.g_to == to_node and self.g_type == 0 and self.g_h_to == to_node
+    # a FRESH header: the next frame id of the process-wide counter (a receiver drops a frame whose
+    # origin, id and type repeat a queued one), reserved byte 0
+    fresh = (self.g_h_id == old_self.g_id0 and self.g_h_res == 0
+             and class_attr(HDR, "_RF24NetworkHeader__next_id") == (old_self.g_id0 + 1) % 65536)
+    return (self.g_writes == 1 and self.g_to == to_node and self.g_type == 0 and self.g_h_to == to_node and fresh
             and self.g_h_from == old_self._addr and self.g_h_type == message_type and self.g_msg == want and node_ok(self))
+
+
+HDR = "structs:RF24NetworkHeader"
+
+
+def setup_next_id(self):
+    """the frame-id counter of RF24NetworkHeader is an arbitrary 16-bit value"""
+    set_class_attr(HDR, "_RF24NetworkHeader__next_id", self.g_id0)
+
+
+def with_id0(sch):
+    sch.fields["g_id0"] = Int(0, 0xFFFF)
+    return sch
 
 
 R = "spec.c17:"
@@ -208,8 +225,8 @@ CONTRACTS = [
              {"self": with_l2m(nm_schema()), "attempts": Int(0, 3), "ping_master": Bool()},
              requires=[R + "req_check"], ensures=[("connected", R + "ens_check")], raises=(), policy=POL17, props=["C17", "C07"], replayable=False),
     Contract("C17.write", NM + ".write",
-             {"self": nm_schema(), "to_node": Int(0, 0xFFFF), "message_type": Int(0, 255), "message": OneOf(Bytes(0, 6000), ByteArray(0, 6000))},
-             requires=[R + "req_mesh_write"], ensures=[("handed_over", R + "ens_mesh_write")], raises=("ValueError",), policy=MPOL,
+             {"self": with_id0(nm_schema()), "to_node": Int(0, 0xFFFF), "message_type": Int(0, 255), "message": OneOf(Bytes(0, 6000), ByteArray(0, 6000))},
+             setup=[R + "setup_next_id"], requires=[R + "req_mesh_write"], ensures=[("handed_over", R + "ens_mesh_write")], raises=("ValueError",), policy=MPOL,
              props=["C17", "C07"], replayable=False),
 ]
 
@@ -370,3 +387,154 @@ CONTRACTS.append(
              requires=[R + "req_mesh_send"], ensures=[("to_the_looked_up_address", R + "ens_mesh_send")], raises=(), policy=POL_SEND,
              loops={(NM + ".send", 0): LoopSpec(R + "inv_send_lookup", havoc=[R + "havoc_send_lookup"], frame=R + "send_fixed")},
              props=["C17", "C07"], replayable=False))
+
+
+# ---- joining: _make_contact (poll a level) and _request_address (ask each responder in turn)
+
+def req_contact(self, lvl):
+    return req_update(self) and self._addr == DEFAULT and 0 <= lvl and lvl <= 4
+
+
+def all_valid(s):
+    ok = True
+    for a in s:
+        ok = ok and valid_address(a)
+    return ok
+
+
+def inv_contact(self, responders):
+    return node_ok(self) and self._addr == DEFAULT and len(responders) <= 4 and all_valid(responders)
+
+
+def havoc_contact(self, responders):
+    """an arbitrary set of at most MESH_MAX_POLL distinct responders seen so far"""
+    havoc_update(self)
+    responders.clear()
+    k = oracle_int(0, 4)
+    for i in range(4):
+        if i < k:
+            a = oracle_int(0, 0xFFFF)
+            assume(valid_address(a) and a not in responders)
+            responders.add(a)
+
+
+def contact_fixed(self):
+    return fixed_cfg(self) + (self._addr, self._id)
+
+
+def ens_contact(self, old_self, result, exc):
+    """the poll goes out as a multicast from the unassigned address; the result holds only origins
+    of validated NETWORK_POLL replies (at most MESH_MAX_POLL); the node keeps listening on 0o4444"""
+    if exc is not None:
+        return False
+    sent = (self.g_writes == 1 and self.g_type == 4 and self.g_h_to == 0o100 and self.g_h_from == DEFAULT
+            and self.g_h_type == 194 and len(self.g_msg) == 0)
+    return sent and node_ok(self) and self._addr == DEFAULT and len(result) <= 4 and all_valid(result)
+
+
+def abs_make_contact(self, lvl):
+    """contract of _make_contact (C17._make_contact): a set of validated addresses, still
+    listening on 0o4444.  Returns the empty set or ONE arbitrary responder: the caller's loop over
+    the set is proved for an arbitrary element by the for-each invariant rule, so the number of
+    responders is immaterial."""
+    require(req_contact(self, lvl), "_make_contact: listening on the unassigned address, level 0..4")
+    havoc_update(self)
+    assume(node_ok(self))
+    s = set()
+    if oracle_int(0, 1) == 1:
+        a = oracle_int(0, 0xFFFF)
+        assume(valid_address(a))
+        s.add(a)
+    return s
+
+
+def abs_net_update_join(self):
+    """_net_update() while joining.  ENVIRONMENT ASSUMPTION (C17's premise: the frames on the
+    air come from a running master and joined nodes of this library on a loss-free medium): a
+    MESH_ADDR_RESPONSE carries a 2-byte valid node address other than 0o4444 -- what the master's
+    _dhcp() is proved to send (C16._dhcp.*: reply shape) and routing nodes forward unchanged
+    (C05.update.forward)"""
+    t = abs_net_update_m(self)
+    m = bytes(self.frame_buf.message) + b"\x00\x00"
+    a = m[0] + 256 * m[1]
+    assume(implies(t == 128, len(self.frame_buf.message) >= 2 and valid_node(a) and a != DEFAULT))
+    return t
+
+
+def req_request(self, level):
+    return req_update(self) and self._addr == DEFAULT and 0 <= level and level <= 4
+
+
+def inv_req_contacts(self, new_addr):
+    """between two responders: still unassigned and listening; a response accepted earlier (kept in
+    new_addr, the code does not reset it) is a valid node address"""
+    return (node_ok(self) and self._addr == DEFAULT
+            and (new_addr is None or (valid_node(new_addr) and new_addr != DEFAULT)))
+
+
+def inv_req_wait(self, new_addr, contact):
+    return inv_req_contacts(self, new_addr) and valid_address(contact)
+
+
+def havoc_req(self):
+    havoc_update(self)
+    self.l_calls = oracle_int(0, 1 << 40)
+    self.l_num = oracle_int(0, 65535)
+    self.l_type = oracle_int(0, 255)
+    self.l_ret = oracle_int(-32768, 32767)
+    self.g_writes = oracle_int(0, 1 << 40)
+
+
+def req_fixed(self):
+    return fixed_cfg(self) + (self._id,)
+
+
+def havoc_req_outer(self):
+    """one turn of the loop over the responders may adopt an address and drop it again: _begin()
+    re-programs the retry delay (the other registers it writes are functions of the address)"""
+    havoc_req(self)
+    if oracle_int(0, 1) == 1:
+        begin_effects(self, DEFAULT)     # adopted and dropped again: _begin(new_addr); _begin(0o4444)
+
+
+def req_fixed_outer(self):
+    r = self._rf24
+    hw = r._spi.hw
+    g = hw.reg
+    return (g[3], g[5], g[6], g[0x11], g[0x12], g[0x13], g[0x14], g[0x15], g[0x16], g[0x1C], g[0x1D],
+            self._addr, bytes(self.address_prefix), bytes(self.address_suffix), self.allow_multicast, self._id)
+
+
+def ens_request(self, old_self, result, exc):
+    """True: the node listens on a valid address that the master confirmed to be leased to THIS
+    node's ID (the answer to the last lookup of that address was the own ID); False: the node is
+    back on / still on the unassigned address, listening"""
+    if exc is not None:
+        return False
+    if result:
+        return (node_ok(self) and self._addr != DEFAULT and valid_node(self._addr) and self.l_calls >= 1
+                and self.l_type == 198 and self.l_num == self._addr and self.l_ret == old_self._id)
+    return node_ok(self) and self._addr == DEFAULT
+
+
+POL_CONTACT = dict(MPOL)
+POL_REQ = dict(POL17)
+POL_REQ[NM + "._make_contact"] = "ref:" + R + "abs_make_contact"
+POL_REQ["mixins:NetworkMixin._net_update"] = "ref:" + R + "abs_net_update_join"
+POL_REQ["rf24_mesh:_get_level"] = "inline"
+POL_REQ["rf24_mesh:RF24MeshNoMaster._request_address._get_level"] = "inline"
+NEWADDR = OneOf(Const(None), Int(0, 0xFFFF))
+CONTRACTS += [
+    Contract("C17._make_contact", NM + "._make_contact", {"self": nm_schema(addr=Const(DEFAULT)), "lvl": Int(0, 4)},
+             requires=[R + "req_contact"], ensures=[("validated_responders", R + "ens_contact")], raises=(), policy=POL_CONTACT,
+             loops={(NM + "._make_contact", 0): LoopSpec(R + "inv_contact", havoc=[R + "havoc_contact"], frame=R + "contact_fixed")},
+             props=["C17", "C07", "C15"], replayable=False),
+    Contract("C17._request_address", NM + "._request_address",
+             {"self": with_l2m(nm_schema(addr=Const(DEFAULT), node_id=Int(1, 255))), "level": Int(0, 4)},
+             requires=[R + "req_request"], ensures=[("confirmed_or_unassigned", R + "ens_request")], raises=(), policy=POL_REQ,
+             loops={(NM + "._request_address", 1): LoopSpec(R + "inv_req_contacts", havoc=[R + "havoc_req_outer"], frame=R + "req_fixed_outer",
+                                                            locals={"new_addr": NEWADDR}),
+                    (NM + "._request_address", 2): LoopSpec(R + "inv_req_wait", havoc=[R + "havoc_req"], frame=R + "req_fixed",
+                                                            locals={"new_addr": NEWADDR})},
+             props=["C17", "C07", "C15"], replayable=False),
+]
